@@ -139,15 +139,20 @@ package unary
 //@ # start does (index cut-off); the midpoint when both do (cases 1-4 in the source comment).
 //@ spec func SpecSamplesBefore(a index.DistanceApproximation) int64 = index.SpecPick(a)
 //@ ignorepkg github.com/synnaxlabs/cesium/internal/index
-//@ ignore func (db *DB) index() index.Index
+//@ inline func (db *DB) index() *index.Domain
 //@ ignore func (db *DB) resolveByteOffset() telem.Size
+//@ # domain.Delete calls both with the start of the domain that contains ts (an index lookup that was exact)
+//@ spec func offsetReady(db *DB, domainStart telem.TimeStamp, ts telem.TimeStamp) bool = db.idx != nil && db.idx.DB != nil && domain.SpecDBLen(db.idx.DB) <= 2147483648 && 0 <= domainStart && domainStart <= ts
+//@ # the sample offset handed to the byte-offset resolver is the number of index stamps in [domainStart, ts)
 //@ func (db *DB) calculateStartOffset(ctx context.Context, domainStart telem.TimeStamp, ts telem.TimeStamp) (off telem.Size, snapped telem.TimeStamp, err error)
 //@   overflow off
-//@   atcall resolveByteOffset sampleOffset == SpecSamplesBefore(approxDist)
+//@   requires offsetReady(db, domainStart, ts)
+//@   atcall resolveByteOffset sampleOffset == SpecSamplesBefore(approxDist) && index.SpecCountIs(db.idx.DB, telem.TimeRange{Start: domainStart, End: old(ts)}, sampleOffset)
 //@   modifies nothing
 //@ func (db *DB) calculateEndOffset(ctx context.Context, domainStart telem.TimeStamp, ts telem.TimeStamp) (off telem.Size, snapped telem.TimeStamp, err error)
 //@   overflow off
-//@   atcall resolveByteOffset sampleOffset == SpecSamplesBefore(approxDist)
+//@   requires offsetReady(db, domainStart, ts)
+//@   atcall resolveByteOffset sampleOffset == SpecSamplesBefore(approxDist) && index.SpecCountIs(db.idx.DB, telem.TimeRange{Start: domainStart, End: old(ts)}, sampleOffset)
 //@   modifies nothing
 
 //@ # Why that table is right. index.Domain.search brackets the number of stamps before a timestamp as
